@@ -140,10 +140,11 @@ class ReachTheTargetSim(GridWorldSimulation):
                     move_result = self.move_actor.process_action(agent, action, **kwargs)
                     if not move_result:
                         self.rewards[agent_id] -= 0.1
-                if self.target_done.get_done(agent):
-                    self.rewards[agent_id] += 1
-                    self.grid.remove(agent, agent.position)
-                    agent.active = False
+                    # Only a runner that is still in the grid can reach the target.
+                    if self.target_done.get_done(agent):
+                        self.rewards[agent_id] += 1
+                        self.grid.remove(agent, agent.position)
+                        agent.active = False
 
         # Entropy penalty for the runners
         for agent_id in action_dict:
